@@ -15,6 +15,7 @@ import Driver.Power
 import Driver.Verifreg
 import Driver.Market
 import Driver.Evm
+import Driver.Reward
 
 /-- generic stdin/stdout loop over a pure handler -/
 partial def loop {σ : Type} (h : IO.FS.Stream) (out : IO.FS.Stream) (step : σ → String → σ × String)
@@ -49,4 +50,5 @@ def main (args : List String) : IO UInt32 := do
     loop stdin stdout Driver.Verifreg.handle { sys := BA.Verifreg.init 0 [] }; return 0
   | ["market"] => loop stdin stdout Driver.Market.handle BA.Market.init; return 0
   | ["evm"] => loop stdin stdout Driver.Evm.handle (); return 0
+  | ["reward"] => loop stdin stdout Driver.Reward.handle (); return 0
   | _ => IO.eprintln "usage: driver <model>"; return 2
